@@ -16,7 +16,9 @@ from mcx.seams import owned_random
 SCALES = (0.5, 1.0, 2.0)
 TARGETS = (('near', 0), ('between', 3), ('far', 2))        # size 0 = number of anchors + 1
 BASES = ('construct', 'genA', 'genB', 'colz', 'col111')
-DKS = ('small', 'second')                                   # second = axial on exactly collinear bases, else large
+DKS = ('small', 'second', 'tiny')                           # second = axial on exactly collinear bases, else large;
+                                                            # tiny = 1e-7 nm, applied right after the base conformation
+TINY = 1e-7
 TOL = 1e-9
 TOL_LOCAL = 1e-12
 CONST_DRAW = np.array([0.31, 0.77, 0.52])
@@ -53,6 +55,9 @@ def displaced(pos, axis, j, dk, fn, seed):
     G = xm.direction_table(seed)
     if dk == 'second' and axis is not None:
         cand = [0.625 * axis, -1.625 * axis, 2.375 * axis]
+    elif dk == 'tiny':
+        cand = [TINY * axis / np.linalg.norm(axis)] if axis is not None else \
+            [TINY * G[(j * 3 + 17 + t) % len(G)] for t in range(len(G))]
     else:
         ln = 0.17 if dk == 'small' else 1.3
         cand = [ln * G[(j * 3 + 31 + t) % len(G)] for t in range(len(G))]
@@ -75,13 +80,13 @@ class C03(Check):
                  'displaced atom on the real ExchangeMap; differential locality oracle, metric oracle from the statement')
     level_text = ('every labelled graph with an anchor on 3..4 (quick) / 3..5 (thorough) atoms in 8 construction geometry '
                   'classes, 3 targets, 2-3 scale factors, 5 whole-molecule conformations (incl. two exactly collinear ones) '
-                  'and on each every single-atom displacement from 2 classes, every mapped atom, executed on the real code')
+                  'and on each every single-atom displacement from 3 classes (0.17 nm, 1.3 nm / axial, and 1e-7 nm right after the base conformation), every mapped atom, executed on the real code')
     level_note = ('trusted: numpy arithmetic, graph enumerator, in-memory builders, brute-force nearest-anchor assignment and '
                   'the frame-neighbour rule computed from the edge list; not covered: near-collinear conformations '
                   '(0 < sin < 0.002 at an anchor), displacement vectors outside the table, references above 5 atoms')
     assumptions = ['conformations are either exactly collinear at an anchor (dyadic coordinates) or have sin >= 0.002 there '
                    '(enforced by the builder, deterministic walk of a direction table selected by VERIF_SEED)',
-                   'displacement classes: 0.17 nm generic; 1.3 nm generic, or along the axis on exactly collinear conformations',
+                   'displacement classes: 0.17 nm generic; 1.3 nm generic, or along the axis on exactly collinear conformations; 1e-7 nm (generic, axial on exactly collinear conformations) mapped immediately after the base conformation',
                    'scale factors {0.5, 2} (thorough, references up to 4 atoms: also 1)']
 
     def units(self, tier, seed):
@@ -141,10 +146,15 @@ class C03(Check):
             return
         moved = ref.copy()
 
-        def apply(conf, cdesc, cls, sig):
+        held = {}
+
+        def apply(conf, cdesc, cls, sig, keep=False):
             moved.atoms_positions = conf
             try:
-                out = emap(moved).atoms_positions
+                res = emap(moved)
+                out = res.atoms_positions
+                if keep:
+                    held['mol'], held['pos'] = res, out.copy()
             except Exception as ex:
                 R.case(cdesc, nontrivial=False, outcome='exception', cls=cls)
                 R.violation(f'exception/{sig}', cdesc, repr(ex))
@@ -172,7 +182,7 @@ class C03(Check):
             sig = f'built-{geo}/applied-{CONF_CLASS.get(base, geo)}'
             bdesc = dict(case, base=base)
             want_j = case.get('j', None)
-            out0 = apply(bpos, dict(bdesc, j=-1), f'{cls0}/{base}', sig)
+            out0 = apply(bpos, dict(bdesc, j=-1), f'{cls0}/{base}', sig, keep=True)
             if out0 is None:
                 continue
             if want_j in (None, -1):
@@ -189,9 +199,18 @@ class C03(Check):
                             _CONF.clear()
                         _CONF[ckey] = displaced(bpos, axis, j, dk, fn, seed)
                     conf = _CONF[ckey]
+                    if dk == 'tiny':
+                        # the conformation seen just before differs from this one by 1e-7 nm in one atom only
+                        moved.atoms_positions = bpos
+                        emap(moved)
                     out = apply(conf, cdesc, f'{cls0}/{base}/{dk}', sig)
                     if out is None:
                         continue
+                    if not np.array_equal(held['mol'].atoms_positions, held['pos']):
+                        R.violation(f'earlier-result-changed/{sig}', cdesc,
+                                    'the molecule returned for the base conformation changed when another conformation '
+                                    'was mapped (distances to ITS anchors no longer hold)')
+                        held['pos'] = held['mol'].atoms_positions.copy()
                     free = [k for k in range(m) if j not in frame_of[k]]
                     dep = [k for k in range(m) if j in frame_of[k]]
                     reacted = any(np.abs(out[k] - out0[k]).max() > TOL_LOCAL for k in dep)
